@@ -28,7 +28,7 @@ Print Assumptions C02_no_diverge.
 (* every rendered mountinfo line has at least three fields after its first "-": the parser's panic
    branches are unreachable, for well-formed and ill-formed tables alike *)
 Theorem C02_probe_total : forall k, exists ms ds, probe_of k = POk ms ds.
-Proof. exact KernelP.probe_of_total. Qed.
+Proof. exact C02KernelP.probe_of_total. Qed.
 Print Assumptions C02_probe_total.
 
 (* (b) requests that would break the forest (duplicate / illegal / empty name, missing parent, rebase
